@@ -309,14 +309,14 @@ theorem scatter_length (n : Nat) (fixed : List Nat) (a : List α) : (scatter n f
 theorem sub_laws (hA : ManLaws A Valid Dom Compat) :
     ManLaws (sub A) (SubValid A Valid) (SubDom A Dom) (SubCompat A Compat) where
   valid_rplus := by
-    intro s a hs hl
+    intro s a hs hl hd
     change SubValid A Valid (subRplus A s a)
     rw [subRplus_eq s a hs]
     obtain ⟨h0, h1, h2, h3⟩ := hs
     have hsl : (scatter (A.dof s.m0) s.fixed a).length = A.dof s.m := by rw [scatter_length, h2]
-    exact ⟨h0, hA.valid_rplus _ _ h1 hsl, by simp [hA.dof_rplus _ _ h1 hsl, h2], h3⟩
+    exact ⟨h0, hA.valid_rplus _ _ h1 hsl hd, by simp [hA.dof_rplus _ _ h1 hsl hd, h2], h3⟩
   dof_rplus := by
-    intro s a hs hl
+    intro s a hs hl _
     change subDof A (subRplus A s a) = subDof A s
     rw [subRplus_eq s a hs]
     rfl
@@ -333,18 +333,6 @@ theorem sub_laws (hA : ManLaws A Valid Dom Compat) :
     cases hc
     intro f hf
     exact scatterLoop_zero_on_fixed _ _ 0 _ a h3 f hf
-  compat_refl := by
-    intro s hs
-    refine ⟨hA.compat_refl _ hs.2.1, rfl, rfl, ?_⟩
-    intro c hc
-    rw [hA.rminus_self _ hs.2.1] at hc
-    cases hc
-    intro f hf
-    have := (hs.2.2.2.2 f hf).2
-    simp only [zeros, Nat.sub_zero]
-    rw [List.getElem?_replicate]
-    simp only [ite_eq_left_iff, not_lt, reduceCtorEq, imp_false, not_le]
-    rw [hs.2.2.1]; omega
   compat_dof := by
     intro s o hc
     change subDof A s = subDof A o
